@@ -216,8 +216,40 @@ def rule_flag_default(ctx, r, func_key, flag, why):
             return "?"
     is_flag = const(kw.get("is_flag"), False)
     default = const(kw.get("default"), False)
-    r.check(is_flag is True and default in (False, None), con, f"{flag} is an on/off flag that is off unless given",
-            f"{flag} is declared with is_flag={is_flag}, default={default}: {why}", f"{fn.module.relpath}:{opt.lineno}")
+    ok = r.check(is_flag is True and default in (False, None), con, f"{flag} is an on/off flag that is off unless given",
+                 f"{flag} is declared with is_flag={is_flag}, default={default}: {why}", f"{fn.module.relpath}:{opt.lineno}")
+    if not ok:
+        r.instances[-1]["from_witness"] = True     # a fact about the click declaration: no evaluation of the command body can see (or override) it
+
+
+def rule_targets_argument(ctx, r, func_key, what):
+    """The command takes zero or more target names/patterns: `click.argument("targets", nargs=-1)`.  Without nargs=-1 click hands the body ONE required string;
+    the body iterates it as patterns (its characters) and `gwf <command>` without names - 'everything' - becomes a usage error."""
+    import ast
+    idx = ctx.index
+    fn = idx.func(func_key)
+    con = f"{fn.module.relpath}::{fn.qual}::targets-argument"
+    arg = None
+    for d in fn.node.decorator_list:
+        if isinstance(d, ast.Call) and idx.canon(d.func, fn.module) == "click.argument":
+            names = [a.value for a in d.args if isinstance(a, ast.Constant) and isinstance(a.value, str)]
+            if names and names[0] in fn.positional_params():
+                kw = {k.arg: k.value for k in d.keywords}
+                try:
+                    nargs = ctx.ev.eval(kw["nargs"], fn.module) if "nargs" in kw else 1
+                except Exception:
+                    nargs = "?"
+                if nargs == -1 or names[0] in ("targets", "patterns", "names"):
+                    arg = (names[0], nargs, d)
+    if arg is None:
+        r.violation(con, f"{what}: no variadic click argument for the target names found on `{fn.name}`", fn.where)
+        r.instances[-1]["from_witness"] = True
+        return
+    ok = r.check(arg[1] == -1, con, f"`{arg[0]}` is declared nargs=-1 (zero or more names, handed over as a tuple)",
+                 f"{what}: the argument `{arg[0]}` is declared with nargs={arg[1]}: click then requires exactly that many names and hands the body a plain string, whose characters "
+                 "are taken for patterns; selecting several targets or none at all (= everything) is no longer possible", f"{fn.module.relpath}:{arg[2].lineno}")
+    if not ok:
+        r.instances[-1]["from_witness"] = True
 
 
 
@@ -282,3 +314,66 @@ def rule_coroutines_awaited(ctx, r, module_names=("gwf.backends.local",)):
         if f.module.name in module_names:
             n_await += sum(1 for n in walk_no_nested(f.node) if isinstance(n, ast.Await))
     r.ok(f"src/{module_names[0].replace('.', '/')}.py::coroutine-calls", f"{n_await} await expressions; no coroutine function of the package is called as a bare statement", f"src/{module_names[0].replace('.', '/')}.py:1")
+
+
+def rule_calls_bind(ctx, r, module_names):
+    """Every call in the given modules whose callee resolves to functions of the package passes what those functions require (positional count, required keyword-only
+    parameters, no unknown keyword).  A call that cannot bind raises TypeError the first time the command is used - the command then does nothing it promises."""
+    import ast
+    from ..index import FuncInfo, walk_no_nested
+    idx, res = ctx.index, ctx.resolver
+    n = 0
+    for f in idx.functions.values():
+        if f.module.name not in module_names:
+            continue
+        for call in walk_no_nested(f.node):
+            if not isinstance(call, ast.Call):
+                continue
+            if any(isinstance(a, ast.Starred) for a in call.args) or any(k.arg is None for k in call.keywords):
+                continue
+            if isinstance(call.func, ast.Attribute):
+                try:
+                    types = res.class_of_expr(call.func.value, f)
+                except Exception:
+                    types = set()
+                canon = idx.canon(call.func, f.module)
+                if not any(kind == "cls" for kind, _c in types) and not (canon and isinstance(idx.lookup(canon), FuncInfo)):
+                    continue       # receiver of unknown class: a callee found by name only proves nothing
+            try:
+                callees = [getattr(c, "finfo", c) for c in res.callees(call, f, {})]
+            except Exception:
+                continue
+            callees = [c for c in callees if isinstance(c, FuncInfo)]
+            if len(callees) != 1:
+                continue
+            g = callees[0]
+            if g.decorator_names() and any(d and not d.endswith(("staticmethod", "classmethod", "property", "wraps")) and not d.startswith(("functools.", "attrs.", "attr."))
+                                           for d in g.decorator_names()):
+                continue           # decorated (click command, context manager ...): the visible signature is not the call signature
+            a = g.node.args
+            params = [x.arg for x in a.posonlyargs + a.args]
+            if g.cls is not None and params and params[0] in ("self", "cls") and "staticmethod" not in g.decorator_names():
+                params = params[1:]
+            if g.name == "__init__":
+                continue
+            n_def = len(a.defaults)
+            required = params[: len(params) - n_def] if n_def else list(params)
+            kwonly_req = [k.arg for k, d in zip(a.kwonlyargs, a.kw_defaults) if d is None]
+            given_kw = {k.arg for k in call.keywords}
+            n_pos = len(call.args)
+            problems = []
+            if n_pos > len(params) and a.vararg is None:
+                problems.append(f"{n_pos} positional arguments for {len(params)} parameter(s)")
+            missing = [p for i, p in enumerate(required) if i >= n_pos and p not in given_kw]
+            missing += [p for p in kwonly_req if p not in given_kw]
+            if missing:
+                problems.append(f"required parameter(s) {missing} not passed")
+            unknown = [k for k in given_kw if k not in params and k not in [x.arg for x in a.kwonlyargs] and a.kwarg is None]
+            if unknown:
+                problems.append(f"unknown keyword(s) {unknown}")
+            n += 1
+            if problems:
+                r.violation(f"{f.module.relpath}::{f.qual}::call-{g.name}", f"{f.qual} calls {g.qual} with {'; '.join(problems)} (line {call.lineno}): the call raises TypeError "
+                            "whenever this line is reached, so the command fails instead of doing what the property describes", f"{f.module.relpath}:{call.lineno}")
+                r.instances[-1]["from_witness"] = True
+    r.ok(f"src/{module_names[0].replace('.', '/')}.py::calls-bind", f"{n} resolved calls of package functions in {', '.join(module_names)} bind to their callee's signature", f"src/{module_names[0].replace('.', '/')}.py:1")
